@@ -126,7 +126,7 @@ class C17(Prop):
                 k["noreply"] = rng.choice([True, False])
             out.append({"property": self.id, "cell": ci,
                         "world": {"stack": "retrying_stub", "retry_kwargs": rk, "script": list(seq),
-                                  "stub_inherits": rng.random() < 0.4},
+                                  "stub_inherits": rng.random() < 0.4, "stub_falsy": rng.random() < 0.15},
                         "steps": [{"t": "call", "m": m, "a": a, "k": k}]})
         # invalid configurations
         for _ in range(3):
@@ -172,7 +172,8 @@ class C17(Prop):
             delay = rng.choice([0, 0.25, 2])
             nodes, servers = gen.node_specs(1)
             ek = rng.choice(["recv", "connect", "sendall"])
-            faults = [dict(rng.choice([f for f in gen.applicable_faults(ek) if f["kind"] != "eof"]), at=[ek, i])
+            faults = [dict(rng.choice([f for f in gen.applicable_faults(ek) if f["kind"] != "eof"
+                                       and f.get("err") not in ("overflow", "valueerror", "typeerror")]), at=[ek, i])
                       for i in range(kfail)]
             for f in faults:
                 f.pop("sent", None)
